@@ -534,6 +534,13 @@ def judge_c13(chk, s, mline):
         stt = kv.get("status")
         if stt != "exited:%d" % t["codes"][-1]:
             bad.append("returned status %s, the last stage exited with %d" % (stt, t["codes"][-1]))
+        # the model's pjoin / pcapture (join_status_is_last, capture_status_is_last) names the command whose status is reported
+        ms = head.get("status", "")
+        if ms.startswith("of:") and 0 <= int(ms[3:]) < n:
+            if stt != "exited:%d" % t["codes"][int(ms[3:])]:
+                tie.append("returned status %s, the model reports the status of stage %s (%d)" % (stt, ms[3:], t["codes"][int(ms[3:])]))
+        else:
+            tie.append("returned status %s, the model says %s" % (stt, ms))
     if term == "popen":
         for i in range(n):
             w = [ln for ln in s["out"] if re.search(r"wait %d " % i, ln)]
